@@ -63,6 +63,7 @@
 #include <new>
 #include <regex>
 #include <sys/wait.h>
+#include <dirent.h>
 #include <sys/resource.h>
 #include <sys/stat.h>
 #include <signal.h>
@@ -3686,6 +3687,136 @@ run_truncate_case(Ctx& ctx, long sub)
     ctx.count("truncated_inputs_rejected");
 }
 
+
+// =====================================================================================================================
+// mode "corpus": inputs found by the coverage-guided fuzzer (harness/c17_fuzz.cxx = this file with C17_LIBFUZZER: libFuzzer
+// drives run_entry() in-process and is only the *generator*); every corpus file and every crash/oom/timeout artifact is judged
+// here, by the same isolated-child oracle as a mutated input.  File format: "<seed name> <entry variant>\n" + text.
+// =====================================================================================================================
+const Seed*
+seed_by_name(const std::string& n)
+{
+  for (auto& sd : g_corpus.seeds)
+    if (sd.name == n)
+      return &sd;
+  return nullptr;
+}
+
+// splits a fuzzer input into (seed, variant, text); inputs without a valid first line are given one deterministically from their bytes
+bool
+split_fuzz_input(const std::string& raw, const Seed*& seed, int& variant, std::string& text)
+{
+  const size_t nl = raw.find('\n');
+  if (nl != std::string::npos && nl < 80)
+    {
+      const std::string head = raw.substr(0, nl);
+      const size_t sp = head.rfind(' ');
+      if (sp != std::string::npos)
+        {
+          seed = seed_by_name(head.substr(0, sp));
+          if (seed && sp + 2 == head.size() && head[sp + 1] >= '0' && head[sp + 1] <= '9')
+            {
+              variant = (head[sp + 1] - '0') % num_entry_variants(seed->family);
+              text = raw.substr(nl + 1);
+              return true;
+            }
+        }
+    }
+  // no usable header: choose by hash so that every byte string is an input (the fuzzer mutates headers too)
+  const uint64_t h = vf::hash_str(raw.substr(0, std::min<size_t>(raw.size(), 16)));
+  seed = &g_corpus.seeds[static_cast<size_t>(h % g_corpus.seeds.size())];
+  variant = static_cast<int>((h >> 20) % static_cast<uint64_t>(num_entry_variants(seed->family)));
+  text = raw;
+  return false;
+}
+
+void
+run_corpus_case(Ctx& ctx, long sub)
+{
+  build_corpus(ctx);
+  static std::vector<std::string> files;
+  static std::string dir;
+  if (dir.empty())
+    {
+      const char* d = std::getenv("VERIF_C17_CORPUS");
+      if (!d)
+        throw std::runtime_error("mode corpus needs VERIF_C17_CORPUS");
+      dir = d;
+      if (DIR* dp = ::opendir(d))
+        {
+          while (dirent* e = ::readdir(dp))
+            if (e->d_name[0] != '.')
+              files.push_back(e->d_name);
+          ::closedir(dp);
+        }
+      std::sort(files.begin(), files.end());
+    }
+  ctx.desc.add("mode", "corpus").add("corpus_files", static_cast<long>(files.size()));
+  if (sub == 0)
+    ctx.count("fuzz_corpus_files_in_enumeration", static_cast<long>(files.size()));
+  if (sub >= static_cast<long>(files.size()))
+    {
+      ctx.count("corpus_indices_beyond_enumeration");
+      return;
+    }
+  const std::string& fname = files[static_cast<size_t>(sub)];
+  const std::string raw = slurp(dir + "/" + fname);
+  Input in;
+  const Seed* seed = nullptr;
+  int variant = 0;
+  const bool headed = split_fuzz_input(raw, seed, variant, in.text);
+  in.seed = seed;
+  in.entry_variant = variant;
+  in.cls = seed->cls;
+  in.path = input_path(*seed);
+  const bool artifact = fname.compare(0, 6, "crash-") == 0 || fname.compare(0, 4, "oom-") == 0 || fname.compare(0, 8, "timeout-") == 0
+                        || fname.compare(0, 5, "leak-") == 0;
+  in.kinds = artifact ? "fuzzer-artifact" : "fuzzer-corpus";
+  const std::string entry = entry_name(seed->family, variant);
+  ctx.desc.add("file", fname).add("family", seed->family).add("seed", seed->name).add("entry", entry).add("input_bytes", static_cast<long>(in.text.size()))
+      .add("input_hash", hex_hash(in.text));
+  // which keyword differs from the seed, when it is a single line (names violations that come without a stack)
+  {
+    std::set<std::string> seed_lines;
+    for (auto& l : split_lines(seed->text))
+      seed_lines.insert(l);
+    int nd = 0;
+    std::string kw;
+    for (auto& l : split_lines(in.text))
+      if (!seed_lines.count(l))
+        {
+          ++nd;
+          kw = ref_split(l).kw;
+        }
+    if (nd == 1)
+      in.culprit = kw;
+  }
+  spit(in.path, in.text);
+  Result r = g_iso.run(ctx, entry + ":" + (in.culprit.empty() ? std::string("no-single-key") : keyify(in.culprit)),
+                       "fuzzer input " + fname + " (" + seed->name + ") through " + entry, [&](Result& r1) {
+                         std::string sig;
+                         run_entry(r1, in, sig);
+                         r1.text = sig;
+                       });
+  report_alloc(r, entry, in);
+  report(ctx, r, in.text, std::string(artifact ? "fuzzer artifact " : "fuzzer corpus input ") + fname, seed);
+  ctx.nontrivial = true;
+  ctx.count("fuzz_inputs_judged");
+  ctx.count(artifact ? "fuzz_artifacts_judged" : "fuzz_corpus_inputs_judged");
+  ctx.count("fuzz_inputs_" + seed->family);
+  ctx.count("fuzz_entry_" + keyify(entry));
+  if (!headed)
+    ctx.count("fuzz_inputs_without_header_line");
+  if (!r.complete && r.how != "stopped-by-arithmetic-overflow-report" && r.how != "cpu-budget-exceeded")
+    ctx.count(r.viols.empty() ? "fuzz_children_died_after_harness_allocation_cap" : "fuzz_children_died");
+  else if (!r.complete)
+    ctx.count("fuzz_children_" + r.how);
+  else if (r.status == 1)
+    ctx.count("fuzz_inputs_accepted_and_consistent");
+  else if (r.status == 0)
+    ctx.count("fuzz_inputs_rejected");
+}
+
 void
 run_case(Ctx& ctx)
 {
@@ -3706,14 +3837,106 @@ run_case(Ctx& ctx)
     run_mutate_case(ctx);
   else if (mode == "truncate")
     run_truncate_case(ctx, sub);
+  else if (mode == "corpus")
+    run_corpus_case(ctx, sub);
   else
     throw std::runtime_error("unknown VERIF_MODE " + mode);
 }
 } // namespace
 
+#ifndef C17_LIBFUZZER
 int
 main(int argc, char** argv)
 {
   vg::quiet();
   return vf::verif_main(argc, argv, "C17", run_case);
 }
+#else
+// ---------------------------------------------------------------------------------------------------------------------
+// libFuzzer target (generator only, see mode "corpus").  VERIF_C17_FUZZ_TMP: scratch directory; VERIF_C17_FUZZ_EXPORT: directory
+// that receives the corpus seeds x entry points as initial inputs and "dict.txt" (keywords and values of the seeds).
+// ---------------------------------------------------------------------------------------------------------------------
+namespace {
+Ctx g_fuzz_ctx;
+}
+extern "C" int
+LLVMFuzzerInitialize(int*, char***)
+{
+  vg::quiet();
+  const char* t = std::getenv("VERIF_C17_FUZZ_TMP");
+  g_fuzz_ctx.tmpdir = t ? t : "/var/tmp";
+  g_fuzz_ctx.prop = "C17";
+  build_corpus(g_fuzz_ctx);
+  g_alloc.cap_fail = 256u << 20; // the generator refuses big requests (bad_alloc); the judge applies the 1 GiB rule
+  if (const char* ex = std::getenv("VERIF_C17_FUZZ_EXPORT"))
+    {
+      std::set<std::string> dict;
+      for (auto& sd : g_corpus.seeds)
+        {
+          for (int v = 0; v < num_entry_variants(sd.family); ++v)
+            spit(std::string(ex) + "/seed_" + sd.name + "_" + std::to_string(v), sd.name + " " + std::to_string(v) + "\n" + sd.text);
+          for (auto& l : split_lines(sd.text))
+            {
+              RefLine r = ref_split(l);
+              if (r.is_assignment && !r.kw.empty() && r.kw.size() < 60)
+                dict.insert(r.kw);
+              if (r.is_assignment && !r.value.empty() && r.value.size() < 40)
+                dict.insert(r.value);
+            }
+        }
+      for (const char* w : { ":=", "[1]", "[2]", "[0]", "[-1]", "{", "}", ",", "\\\n", "!", "%", ";", "2147483647", "4294967296", "-1", "0", "1e30", "nan" })
+        dict.insert(w);
+      std::string d;
+      for (auto& w : dict)
+        {
+          std::string e;
+          bool ok = true;
+          for (unsigned char c : w)
+            {
+              if (c == '"' || c == '\\')
+                {
+                  e += '\\';
+                  e += static_cast<char>(c);
+                }
+              else if (c == '\n')
+                e += "\\x0a";
+              else if (c < 0x20 || c >= 0x7f)
+                ok = false;
+              else
+                e += static_cast<char>(c);
+            }
+          if (ok && !e.empty())
+            d += "\"" + e + "\"\n";
+        }
+      spit(std::string(ex) + "/../dict.txt", d);
+    }
+  return 0;
+}
+
+extern "C" int
+LLVMFuzzerTestOneInput(const uint8_t* data, size_t size)
+{
+  if (size > 16384)
+    return 0;
+  const std::string raw(reinterpret_cast<const char*>(data), size);
+  Input in;
+  const Seed* seed = nullptr;
+  int variant = 0;
+  split_fuzz_input(raw, seed, variant, in.text);
+  in.seed = seed;
+  in.entry_variant = variant;
+  in.cls = seed->cls;
+  in.path = input_path(*seed);
+  in.kinds = "fuzzer";
+  try
+    {
+      spit(in.path, in.text);
+      Result r;
+      std::string sig;
+      run_entry(r, in, sig);
+    }
+  catch (...)
+    {}
+  return 0;
+}
+#endif
